@@ -69,7 +69,8 @@ def pub_guard(ctx):
     mut.replace_expr('keys', 'HDKey.child_private', "b'\\x00' + self.private_byte + index.to_bytes(4, 'big')", "self.private_byte + index.to_bytes(4, 'big')", 'child_private: 0x00 pad dropped'),
     mut.const('keys', 'HDKey.child_private', 'big', 'little', 'child_private: ser32 little-endian', nth=0),
     mut.drop_stmt('keys', 'HDKey.child_private', 'index |= 2147483648', 'child_private: hardened bit not set in serialized index'),
-    mut.replace_expr('keys', 'HDKey.child_private', 'self.public_byte + index.to_bytes(4, \'big\')', 'self.private_byte + index.to_bytes(4, \'big\')', 'child_private: non-hardened data uses private key'),
+    mut.replace_expr('keys', 'HDKey.child_private', 'self.public_compressed_byte + index.to_bytes(4, \'big\')', 'self.private_byte + index.to_bytes(4, \'big\')', 'child_private: non-hardened data uses private key'),
+    mut.replace_expr('keys', 'HDKey.child_private', 'self.public_compressed_byte + index.to_bytes(4, \'big\')', 'self.public_byte + index.to_bytes(4, \'big\')', 'child_private: serP is the public key as stored (65 bytes for an uncompressed parent)'),
 ])
 def priv_branch(ctx):
     """HDKey.child_private: HMAC data is 00||ser256(k)||ser32(i|2^31) exactly when hardened or i >= 2^31, else
@@ -85,7 +86,7 @@ def priv_branch(ctx):
     if not (isinstance(rv, tuple) and rv[0] == 'call' and rv[1] == 'HDKey'):
         ctx.undecided('child_private does not return HDKey(...)')
     priv = ('attr', SELF, 'private_byte')
-    pub = ('attr', SELF, 'public_byte')
+    pub = ('attr', SELF, 'public_compressed_byte')         # serP(K) is the COMPRESSED point, also for a parent created with compressed=False
     for hard in (True, False):
         for p in (0, 1, 2 ** 31 - 1, 2 ** 31, 2 ** 31 + 1, 2 ** 32 - 1):
             sub = {INDEX: p, HARD: hard}
@@ -104,7 +105,7 @@ def priv_branch(ctx):
                 why = 'hardened child: data must be 0x00 || ser256(k_par) || ser32(i) with i >= 2^31'
             else:
                 exp = [pub, ('int2bytes', ser, 4, 'big')]
-                why = 'normal child: data must be serP(K_par) || ser32(i)'
+                why = 'normal child: data must be serP(K_par) || ser32(i), serP being the compressed public key (self.public_byte is the 65-byte key for an HDKey created with compressed=False: its children are not the BIP32 children)'
             if parts != exp:
                 ctx.violate(q, 'index=%#x hardened=%s: HMAC data is %s, BIP32 requires %s' % (p, hard, show(data), show(('cat', tuple(exp)))), fn, why)
             if ci != ser:
@@ -215,8 +216,8 @@ def add(ctx):
     if len(hm) != 1:
         ctx.undecided('child_public: HMAC term')
     data = flatten_cat(hm[0][3][1])
-    ctx.require(data == [('attr', SELF, 'public_byte'), ('int2bytes', INDEX, 4, 'big')], q,
-                'HMAC data is %s, BIP32 CKDpub requires serP(K_par) || ser32(i)' % show(hm[0][3][1]), fn)
+    ctx.require(data == [('attr', SELF, 'public_compressed_byte'), ('int2bytes', INDEX, 4, 'big')], q,
+                'HMAC data is %s, BIP32 CKDpub requires serP(K_par) || ser32(i) with the compressed public key' % show(hm[0][3][1]), fn)
     il = ('bytes2int', ('slice', ('mcall', hm[0], 'digest', (), ()), None, 32, None), 'big')
     ctx.require(any(e.kind == 'raise' and (('cmp', '>=', il, N), True) in e.pc for e in exits), q,
                 'no raise when parse256(I_L) >= n', fn)
@@ -245,6 +246,7 @@ def add(ctx):
     mut.replace_expr('keys', 'HDKey.child_private', 'self.depth + 1', 'self.depth', 'child_private: depth not incremented'),
     mut.replace_expr('keys', 'HDKey.child_public', 'self.fingerprint', 'self.parent_fingerprint', 'child_public: parent fingerprint copied from parent'),
     mut.replace_expr('keys', 'HDKey.fingerprint', 'self.hash160[:4]', 'self.hash160[-4:]', 'fingerprint: last 4 bytes'),
+    mut.replace_expr('keys', 'HDKey.fingerprint', 'not self.compressed', 'False', 'fingerprint of the key as stored (uncompressed form for compressed=False)'),
     mut.replace_stmt('keys', 'HDKey.__init__', 'self.chain = chain', 'self.chain = to_bytes(chain)', 'chain code passed through the hex-sniffing normaliser'),
 ])
 def meta(ctx):
@@ -287,11 +289,23 @@ def meta(ctx):
     ctx.saw('HDKey.__init__ stores chain / depth / parent_fingerprint / child_index as given')
     q = 'keys:HDKey.fingerprint'
     fn = repo.func(q)
-    it = Interp(repo, 'keys', self_cls='keys:HDKey')
-    exits = it.run_function(fn, {})
-    rv = term([e for e in exits if e.kind == 'return'][0].value)
-    ctx.saw('fingerprint = %s' % show(rv))
-    ctx.require(rv == ('slice', ('attr', SELF, 'hash160'), None, 4, None), q, 'fingerprint is %s, BIP32 uses the first 32 bits of HASH160(serP(K))' % show(rv), fn)
+    # serP(K) is the compressed point: self.hash160 is the hash of the key AS STORED, which is the 65-byte form when compressed=False
+    of_compressed = ('slice', ('call', 'hash160', (('attr', SELF, 'public_compressed_byte'),), ()), None, 4, None)
+    for compressed in (True, False):
+        def attr_hook(interp, base, name, st, compressed=compressed):
+            if term(base) == SELF and name == 'compressed':
+                return compressed
+            return NotImplemented
+        it = Interp(repo, 'keys', self_cls='keys:HDKey', attr_hook=attr_hook)
+        exits = it.run_function(fn, {})
+        rets = [e for e in exits if e.kind == 'return']
+        if len(rets) != 1:
+            ctx.undecided('HDKey.fingerprint (compressed=%s): %d return paths' % (compressed, len(rets)))
+        rv = term(rets[0].value)
+        ctx.saw('fingerprint of a key with compressed=%s = %s' % (compressed, show(rv)))
+        allowed = [of_compressed] + ([('slice', ('attr', SELF, 'hash160'), None, 4, None)] if compressed else [])
+        ctx.require(rv in allowed, q, 'fingerprint of a key with compressed=%s is %s, BIP32 uses the first 32 bits of HASH160(serP(K)) with the compressed point' % (compressed, show(rv)), fn,
+                    'children of an HDKey created with compressed=False carry a parent fingerprint no other implementation computes')
 
 
 @PROP.obligation('C03.priv-required', canaries=[
